@@ -1,11 +1,12 @@
 import QuantemModel.Core.Proto
 import QuantemModel.Model.Checkpoint
 import QuantemModel.Model.CheckpointSession
+import QuantemModel.Model.CheckpointLive
 open Lean QuantemModel QuantemModel.Proto QuantemModel.Checkpoint
 
 /-!
 Driver for C05: runs Model/Checkpoint.lean on the event trace recorded from real runs.
-ops: reconnect | book | symiter | project | session
+ops: reconnect | book | symiter | project | session | live
 -/
 namespace DrvC05
 
@@ -213,6 +214,40 @@ def step (st : Unit) (j : Json) : Unit × Json :=
           r := x.1
           out := out.push (sessViewJson x.2 r)
         pure (st, okJson (Json.mkObj [("steps", Json.arr out)]))
+    | "live" =>
+        -- Model/CheckpointLive.lean on presence masks (γ = Unit): per model [key, has optimizer, .grad-is-not-None mask before
+        -- zero_grad_all, mask of the gradient of this pass]; answer: masks after zero_grad_all and after backward
+        let ms ← (← arrField j "models").toList.mapM fun it => do
+          let a ← it.getArr?
+          if a.size != 4 then throw "live model" else
+            let bools := fun (x : Json) => do (← x.getArr?).toList.mapM (·.getBool?)
+            pure ((← a[0]!.getStr?), (← a[1]!.getBool?), (← bools a[2]!), (← bools a[3]!))
+        let mk : String → ModelSt Unit Nat Unit := fun k =>
+          match ms.find? (·.1 == k) with
+          | some (_, has, stale, _) =>
+              let ids := List.range stale.length
+              { params := ids.map (fun i => (i, ())), opt := if has then some { params := ids, state := [], lr := 0, hyper := 0 } else none,
+                sched := none, cons := [] }
+          | none => { params := [], opt := none, sched := none, cons := [] }
+        let r : SRecon := { object := mk "object", probe := mk "probe", dataset := mk "dataset", book := Book.empty,
+                            verbose := 0, batchSize := 1, preprocessed := true, device := "cpu" }
+        let look := fun (sel : String × Bool × List Bool × List Bool → List Bool) (k : String) (p : Nat) =>
+          match ms.find? (·.1 == k) with
+          | some m => if (sel m).getD p false then some () else none
+          | none => none
+        let G : Grads Unit := look (fun m => m.2.2.1)
+        let S : Step Unit Unit Nat Unit := { loss := fun _ => 0, grad := fun _ k p => look (fun m => m.2.2.2) k p,
+                                             upd := fun _ _ m x _ => (some (m.getD 0 + 1), x), sched := fun s _ lr => (s, lr) }
+        let G0 := zeroGradAll r G
+        let G1 := backwardAcc S (fun _ _ => ()) r.view G0
+        let maskJson := fun (g : Grads Unit) =>
+          Json.arr (ms.map (fun m => Json.arr #[Json.str m.1,
+            Json.arr ((List.range m.2.2.1.length).map (fun p => Json.bool (g m.1 p).isSome)).toArray])).toArray
+        -- theorem liveIter_fst on this instance: the step reads what the .grad-free iteration reads
+        let same := (liveIter S (fun _ _ => ()) (r, G)).1.object.opt == (iter S r).object.opt &&
+                    (liveIter S (fun _ _ => ()) (r, G)).1.probe.opt == (iter S r).probe.opt &&
+                    (liveIter S (fun _ _ => ()) (r, G)).1.dataset.opt == (iter S r).dataset.opt
+        pure (st, okJson (Json.mkObj [("zeroed", maskJson G0), ("after", maskJson G1), ("live_eq_iter", Json.bool same)]))
     | "project" =>
         let names ← (← arrField j "names").toList.mapM (·.getStr?)
         let skip ← (← arrField j "skip").toList.mapM (·.getStr?)
